@@ -3,6 +3,7 @@ CONSTANTS
   W = 8
   MaxDepth = 1
   Bound = 1024
+  Dense = FALSE
 VIEW View
 INVARIANT Exactness
 INVARIANT StepOK
